@@ -10,6 +10,7 @@ import PeroVerif.Drv.C05
 import PeroVerif.Drv.C13
 import PeroVerif.Drv.C14
 import PeroVerif.Drv.C15
+import PeroVerif.Drv.C16
 open Lean Drv
 
 def dispatch (p : String) : Option Handler :=
@@ -21,6 +22,7 @@ def dispatch (p : String) : Option Handler :=
   | "C13" => some Drv.C13.handle
   | "C14" => some Drv.C14.handle
   | "C15" => some Drv.C15.handle
+  | "C16" => some Drv.C16.handle
   | _ => none
 
 def handleLine (line : String) : String :=
